@@ -10,9 +10,10 @@ FUNCTIONS = ['uxarray.grid.geometry._pad_closed_face_nodes',
     'uxarray.grid.geometry._grid_to_polygon_geodataframe@ignore,spatialpandas',
     'uxarray.grid.geometry._grid_to_polygon_geodataframe@exclude,geopandas',
     'uxarray.grid.geometry._grid_to_polygon_geodataframe@exclude,spatialpandas',
-    'uxarray.grid.grid.Grid.to_geodataframe']
+    'uxarray.grid.grid.Grid.to_geodataframe',
+    'uxarray.grid.geometry._build_antimeridian_face_indices']
 STANDINS = ["geometry_export", "gdf_frames", "cache_sequences"]
 ASSUMPTIONS = []
 EXPLANATION = ""
-LEVEL_TEXT = '_pad_closed_face_nodes proved (loop invariant): row = corners then copies of the first corner; to_linecollection / to_polycollection / to_geodataframe proved to depend only on their arguments from every cache state (polycollection returns a private deep copy; the GeoDataFrame cache-miss value is proved to be a function of exactly the cache key, over all pairs of paths); _grid_to_polygon_geodataframe proved non-interferent: its frame, NaN side table and the antimeridian side table it leaves on the grid depend on (grid, projection, project) only; vertices, antimeridian handling, data alignment bounded'
+LEVEL_TEXT = '_build_antimeridian_face_indices proved for every shell table: exactly the faces with an edge spanning at least 180 degrees, in increasing order (np.diff / np.any(axis) / np.argwhere modelled); _pad_closed_face_nodes proved (loop invariant): row = corners then copies of the first corner; to_linecollection / to_polycollection / to_geodataframe proved to depend only on their arguments from every cache state (polycollection returns a private deep copy; the GeoDataFrame cache-miss value is proved to be a function of exactly the cache key, over all pairs of paths); _grid_to_polygon_geodataframe proved non-interferent: its frame, NaN side table and the antimeridian side table it leaves on the grid depend on (grid, projection, project) only; vertices, antimeridian handling, data alignment bounded'
 LEVEL_NOTE = 'matplotlib/shapely/cartopy/antimeridian builders as uninterpreted functions; abstract mode (library calls / operators on uninterpreted values are deterministic pure functions); geometry builders summarised; Grid accessors assumed stable (C08)'
